@@ -38,7 +38,7 @@ def coverage_for(key):
     f = key.split("::", 1)[0]
     if f.endswith("parser/src/lexer.rs"):
         if "normalize_line_endings:debug_assert" in key:
-            return known("panic:parser/src/lexer.rs:The lexer throws an error when it finds a lone carriage retu", "lone_cr_reaches_literal",
+            return known("panic:parser/src/lexer.rs:The_lexer_throws_an_error_when_it_finds_a_lone_carriage_retu", "lone_cr_reaches_literal",
                          "reachable: the greedy literal regexes swallow a lone carriage return that is not at the start of the literal; debug assertion fails (proposed/C10-lexer-lone-cr.diff)")
         if re.search(r"::(enter_strlike|enter_normal|leave_str|leave_indstr|leave_normal|normal_mode_data_mut|multistring_mode_data|bufferize):panic", key):
             return thm("lexer_no_panic", "mode-switch panic: excluded by the alternation invariant of the mode stack for every raw token sequence")
@@ -65,8 +65,8 @@ def coverage_for(key):
         return unproved("not modelled")
     if f.endswith("term/string.rs"):
         if "find_all_regex:expect" in key:
-            return known("panic:core/src/term/string.rs:We already know that `first_match.start()` occurs on a clust", "find_all_index_panics",
-                         "reachable: an empty match at the end of the string starts at offset len, which grapheme_indices never yields (proposed/C10-find-all-end-match.diff; no_panic_find_all_fixed for the repair)")
+            return known("panic:core/src/term/string.rs:We_already_know_that_first_match.start_occurs_on_a_clust", "find_all_index_panics",
+                         "reachable: an empty match at the end of the string starts at offset len, which grapheme_indices never yields (proposed/C10-find-all-empty-match.diff; no_panic_find_all_fixed for the repair)")
         if "find_all_regex:unwrap" in key:
             return unproved("capt.get(0).unwrap(): group 0 always participates in a match (guarantee of the regex crate, not modelled)")
         if "substring:sub" in key:
@@ -74,7 +74,7 @@ def coverage_for(key):
         return unproved("not modelled")
     if f.endswith("core/src/pretty.rs"):
         if "unwrap" in key or "libcall" in key:
-            return known("panic:core/src/pretty.rs:called `Option::unwrap()` on a `None` value", "pretty_print_cap_panics",
+            return known("panic:core/src/pretty.rs:called_Option::unwrap_on_a_None_value", "pretty_print_cap_panics",
                          "reachable: output.len() counts bytes, nth(max_width) counts characters (proposed/C10-pretty-print-cap.diff)")
         return unproved("output[..end] with end taken from char_indices(): a char boundary by construction; not modelled")
     if f.endswith("eval/operation.rs"):
